@@ -203,6 +203,36 @@ class CommanderCheck:
         return view_kept(self, old.self)
 
 
+@contract('commander:Commander.on_event', props=[])
+class CommanderOnEvent:
+    """C10 owns it (the acknowledgement ends / advances the job).  Effect logged WITH its receiver"""
+    assumed = True
+    effect = 'commander_on_event'
+    effect_receiver = True
+    raises = ()
+
+    def modifies(self, process, identifier):
+        return [but_view(self)]
+
+    def post_view(self, old):
+        return view_kept(self, old.self)
+
+
+@contract('context:Context.on_process_state_event', props=[])
+class ContextOnProcessStateEvent:
+    """C11 / C12 own it: the event is applied to the ProcessStatus it names (None: unknown process, or sender not CHECKED
+    / RUNNING); the instance states and the state & modes view are not touched"""
+    assumed = True
+    raises = ()
+    returns = 'Optional[ProcessStatus]'
+
+    def modifies(self, status, event):
+        return [but_view(self)]
+
+    def post_view(self, old):
+        return view_kept(self, old.self)
+
+
 @contract('commander:Starter.start_applications', props=[])
 class StarterStartApplications:
     assumed = True
